@@ -10,6 +10,7 @@ import DispensoVerif.Model.DistRWLock
 import DispensoVerif.Model.ThreadId
 import DispensoVerif.Model.OpResult
 import DispensoVerif.Model.SmallVec
+import DispensoVerif.Model.OnceFn
 
 /-! Handlers of the dvdriver line protocol. Core Lean only. -/
 namespace Driver
@@ -33,6 +34,7 @@ structure St where
   sess : Sess := .none
   opres : OpResult.St := OpResult.St.init
   svec : SmallVec.St := SmallVec.St.init 4
+  oncefn : OnceFn.St := OnceFn.St.init
 
 def St.init : St := {}
 
@@ -144,6 +146,38 @@ def svecH (st : St) (args : List String) : St × String :=
           | none => "reject")
   | _ => (st, "bad-op")
 
+/-- C39 OnceFunction: `oncefn reset` | `oncefn <op> <args…>`;
+    reply `inline allocSize called destroyed blocks` or `reject`; `oncefn ord <blockSize>` → ordinal -/
+def oncefnH (st : St) (args : List String) : St × String :=
+  match args with
+  | ["reset"] => ({ st with oncefn := OnceFn.St.init }, "ok")
+  | opn :: rest =>
+    match nats rest with
+    | none => (st, "bad-op")
+    | some ns =>
+      if opn = "ord" then
+        match ns with
+        | [b] => (st, toString (OnceFn.getOrdinal b))
+        | _ => (st, "bad-op")
+      else
+      let op? : Option OnceFn.Op := match opn, ns with
+        | "create", [sz, al] => some (.create sz al)
+        | "mkEmpty", [] => some .mkEmpty
+        | "moveCtor", [a] => some (.moveCtor a)
+        | "moveAssign", [a, b] => some (.moveAssign a b)
+        | "invoke", [a] => some (.invoke a)
+        | "cleanup", [a] => some (.cleanup a)
+        | "drop", [a] => some (.drop a)
+        | _, _ => none
+      match op? with
+      | none => (st, "bad-op")
+      | some op =>
+        let (s', o) := OnceFn.step st.oncefn op
+        ({ st with oncefn := s' }, match o with
+          | some (i, a, c, d, b) => s!"{i} {a} {c} {d} {b}"
+          | none => "reject")
+  | _ => (st, "bad-op")
+
 /-- `trace begin <protocol> <params…>` starts a session; `T <event…>` feeds one trace line -/
 def traceBegin (args : List String) : Sess × String :=
   match args with
@@ -217,6 +251,7 @@ def dispatch (st : St) : List String → St × String
   | "bits" :: rest => (st, bitsH rest)
   | "opres" :: rest => opresH st rest
   | "svec" :: rest => svecH st rest
+  | "oncefn" :: rest => oncefnH st rest
   | "trace" :: "begin" :: rest =>
     let (s, r) := traceBegin rest
     ({ st with sess := s }, r)
